@@ -154,6 +154,16 @@ def check_one(case):
             got = outcome(lambda: list(g.BatcherIter(mk(), b)))
             if got != ("ok", want):
                 return "batcher_iter", f"BatcherIter(n={n}, batch={b}, w={width}) -> {str(got)[:200]}", {"want": want}
+        # re-iterable input (sequences): every pass over the same BatcherIter object cuts the same batches, also
+        # after an abandoned pass
+        bi = g.BatcherIter(base[0] if width == 0 else tuple(base), b)
+        for _ in bi:
+            break
+        for p in (1, 2):
+            got = outcome(lambda: list(bi))
+            if got != ("ok", want):
+                return "batcher_iter", (f"BatcherIter(n={n}, batch={b}, w={width}) pass {p} over the same object (sequence "
+                                        f"input) -> {str(got)[:200]}"), {"want": want}
         return None
     if fam == "batcher-huge":
         n, b, width = case["n"], case["b"], case["w"]
